@@ -450,3 +450,137 @@ func init() {
 		WallBudget: shapeBudget,
 	})
 }
+
+// literalShapes: the shape family with variable and literal leaves only (Dump prints
+// constants by value, so symbolic constants cannot be re-read from its text).
+func literalShapes(maxM int, tier string) []string {
+	ss := newShapeSet(false)
+	seen := map[string]bool{}
+	var out []string
+	add := func(s string) {
+		if !seen[s] {
+			seen[s] = true
+			out = append(out, s)
+		}
+	}
+	variants := func(shape string) {
+		n := len(leafSlots(shape))
+		add(assignLeaves(shape, strings.Repeat("v", n)))
+		for i := 0; i < n; i++ {
+			b := []byte(strings.Repeat("v", n))
+			b[i] = 'l'
+			add(assignLeaves(shape, string(b)))
+		}
+		add(assignLeaves(shape, strings.Repeat("l", n)))
+		if n >= 2 {
+			b := []byte(strings.Repeat("l", n))
+			b[n-1] = 'v'
+			add(assignLeaves(shape, string(b)))
+		}
+	}
+	for m := 1; m <= maxM; m++ {
+		for _, sh := range ss.B(m) {
+			variants(sh)
+		}
+		for _, sh := range ss.I(m) {
+			variants(sh)
+		}
+	}
+	for _, sh := range stressShapes() {
+		if len(leafSlots(sh)) <= 8 {
+			add(assignLeaves(sh, strings.Repeat("v", len(leafSlots(sh)))))
+		}
+	}
+	return out
+}
+
+func init() {
+	registerProp(&PropSpec{
+		ID: "C13",
+		Units: func(tier string, seed int64, sh *Shared) []Unit {
+			maxM, _ := shapeTierParams(tier)
+			var units []Unit
+			for _, src := range literalShapes(maxM, tier) {
+				units = append(units, Unit{"VerifC13", []string{src, "", "all"}})
+			}
+			for _, src := range literalShapes(1, tier) {
+				units = append(units, Unit{"VerifC13", []string{src, "event", "all"}}, Unit{"VerifC13", []string{src, "debug", "all"}})
+			}
+			return units
+		},
+		Reach:  []string{"recompiled", "folded-to-scalar"},
+		Bounds: shapeBounds(map[string]interface{}{"leaves": "variables and int/bool literals (each single leaf a literal, all literals, all but the last)", "event_modes": "off for all shapes; ReportEvent and Debug for shapes with ≤1 internal node"}),
+		Rule:   "one unit per (shape, event mode); all 16 subsets per unit; a state is one symbolic path through Eval of the original and of the recompiled program",
+		Assumptions: []string{"string/list literal contents are covered by the literal sub-check (symbolic characters), see evidence bounds; constants produced by folding a stateless custom operator have no literal form (outside the property)"},
+		WallBudget:  shapeBudget,
+	})
+}
+
+func varsOf(src string) []string {
+	seen := map[string]bool{}
+	var out []string
+	for _, tok := range strings.FieldsFunc(src, func(r rune) bool { return r == '(' || r == ')' || r == ' ' }) {
+		if len(tok) >= 2 && (tok[0] == 'b' || tok[0] == 'i') && tok[1] >= '0' && tok[1] <= '9' && !seen[tok] {
+			seen[tok] = true
+			out = append(out, tok)
+		}
+	}
+	return out
+}
+
+func init() {
+	registerProp(&PropSpec{
+		ID: "C16",
+		Units: func(tier string, seed int64, sh *Shared) []Unit {
+			maxM, _ := shapeTierParams(tier)
+			var srcs []string
+			for _, s := range shapeFamily(maxM, leavesVarsOnly, false, "BI") {
+				if strings.Contains(s, "and") || strings.Contains(s, "or") {
+					srcs = append(srcs, s)
+				}
+			}
+			extra := []string{
+				"(and b0 b1 b2 b3)", "(or (> i0 i1) b0 (= i2 i3) b1)", "(and (> i0 i1) (> i2 i3) (> i4 i5))", "(and (p b0) b1 (p b2))",
+				"(or (and b0 b1) (and b2 b3) (and b4 b5))", "(and (or b0 (> i0 i1)) (or b1 (> i2 i3)) b2)", "(and (if b0 b1 b2) b3 (not b4))",
+				"(if (and b0 b1 b2) (or b3 b4 b5) b6)", "(and b0 (> (+ i0 i1) i2) (= (q i3) i4) b1)", "(and (> i0 1) (> i1 1) b0 (> i2 1))",
+			}
+			srcs = append(srcs, extra...)
+			var units []Unit
+			for _, s := range srcs {
+				vs := varsOf(s)
+				for k, x := range vs {
+					if k >= 3 {
+						break
+					}
+					units = append(units, Unit{"VerifC16", []string{s, x, "pair", ""}})
+					if k == 0 {
+						units = append(units, Unit{"VerifC16", []string{s, x, "pair", "vo"}})
+					}
+				}
+				if strings.Contains(s, "(p ") {
+					units = append(units, Unit{"VerifC16", []string{s, "p", "pair", ""}})
+				}
+				units = append(units, Unit{"VerifC16", []string{s, vs[0], "equal", ""}}, Unit{"VerifC16", []string{s, vs[0], "equal", "v"}})
+			}
+			for _, s := range append(shapeFamily(1, leavesVarsOnly, false, "B"), extra...) {
+				if !(strings.Contains(s, "and") || strings.Contains(s, "or")) {
+					continue
+				}
+				for _, sp := range []string{"nan", "inf", "ninf", "negzero", "half", "huge", "nhuge"} {
+					units = append(units, Unit{"VerifC16", []string{s, varsOf(s)[0], sp, ""}})
+				}
+			}
+			return units
+		},
+		Reach: []string{"pair", "p3", "p4", "p5", "equal-cost-siblings", "special-cost"},
+		Bounds: func(tier string) map[string]interface{} {
+			maxM, _ := shapeTierParams(tier)
+			return map[string]interface{}{"shapes": "all typed shapes with ≤" + itoa(maxM) + " internal nodes containing and/or (all-variable leaves) + 10 wider shapes (≤4 and/or operands)",
+				"costs": "integer-valued symbolic costs in [-10^6,10^6] for up to 3 other names, the `variable`/`operator` defaults present or absent; the raised entry ranges up to 2^40; concrete NaN/±Inf/-0/0.5/±1e300 for P1 only",
+				"sort":  "every comparison outcome of the real sort.stable_func on symbolic costs is a path"}
+		},
+		Rule:        "one unit per (shape, name x whose cost is raised, mode); observation = Dump trees under the two cost maps",
+		Assumptions: []string{"symbolic costs are integer-valued doubles (exact as SMT Int); assertions are formula-free: no particular built-in base cost is assumed"},
+		WallBudget:  shapeBudget,
+	})
+}
